@@ -824,10 +824,13 @@ func checkForStaleOutput(filename string, err error) bool {
 
 // calculateAndCheckRuleHash checks the output hash for a rule.
 func calculateAndCheckRuleHash(state *core.BuildState, target *core.BuildTarget) ([]byte, error) {
-	hash, err := state.TargetHasher.OutputHash(target)
+	// The outputs have just been built or restored, so anything memoised for this target is stale
+	// (e.g. the hash of artifacts we got from the cache, rejected & have now rebuilt). Always recalculate.
+	hash, err := (&targetHasher{State: state}).outputHash(target)
 	if err != nil {
 		return nil, err
 	}
+	state.TargetHasher.SetHash(target, hash)
 
 	if err = checkRuleHashes(state, target, hash); err != nil {
 		if state.NeedHashesOnly && state.IsOriginalTargetOrParent(target) {
